@@ -44,11 +44,12 @@ static MPT_STRUCT(node) *make_global(const MPT_STRUCT(path) *dest)
 	}
 	if (p.len) {
 		MPT_STRUCT(node) *t = n->children ? 0 : n;
-		if (!(n = mpt_node_assign(&n->children, &p, 0))) {
-			return 0;
-		}
-		if (t) {
+		n = mpt_node_assign(&n->children, &p, 0);
+		if (t && t->children) {
 			t->children->parent = t;
+		}
+		if (!n) {
+			return 0;
 		}
 	}
 	return n;
@@ -201,11 +202,13 @@ static int configAssign(MPT_INTERFACE(config) *cfg, const MPT_STRUCT(path) *path
 		return mpt_meta_set(&n->_meta, val);
 	}
 	/* set subelement */
-	if (!(n = mpt_node_assign(b, path, val))) {
-		return val ? MPT_ERROR(BadOperation) : 0;
-	}
-	if (t) {
+	n = mpt_node_assign(b, path, val);
+	/* first child may have been created even if assignment failed later */
+	if (t && t->children) {
 		t->children->parent = t;
+	}
+	if (!n) {
+		return val ? MPT_ERROR(BadOperation) : 0;
 	}
 	mt = n->_meta;
 	
